@@ -309,6 +309,10 @@ def case_locate_single(i, case, out):
     if case.get("mirror"):
         mesh.Symmetry(case["mirror"]["point"], case["mirror"]["n"])
         tag += ":mirrored"
+    for mo in case.get("embed", []):
+        # rotation about a non-z axis / reflection through a skew plane: the 2-D element leaves the plane z = 0
+        apply_motion(mesh, mo, np.zeros((1, 3)))
+        tag += ":embedded-" + mo["t"]
     nv = mesh.groupElem.Nvertex
     Xv = np.asarray(mesh.coord)[:nv]
     W = rng.dirichlet(np.ones(nv), size=60) * 0.6 + 0.4 / nv
@@ -833,7 +837,102 @@ def case_order(i, case, out):
             "%s, %s: measure after locate-then-integrate %.12g (element integrals of 1 must be positive)" % (el, stage, meas), meas, float(obsA["measure"]))
 
 
-CASES = {"renumber": case_renumber, "order": case_order, "sequence": case_sequence, "purity": case_purity, "deformed": case_deformed, "faces": case_faces, "geom": case_geom, "locate_gmsh": case_locate_gmsh, "locate_single": case_locate_single, "outside": case_outside}
+# ------------------------------------------------------------------ scaled twins (change of length unit)
+def case_scaled(i, case, out):
+    """the same scenario with all lengths multiplied by s: every observable must be the predicted power
+    of s times the unit-scale observable, to a RELATIVE tolerance; unit normals stay unit normals."""
+    Mesher, ElemType, Points, Point, Mesh, MatrixType, F = _imports()
+    rng = np.random.default_rng(case["seed"])
+    el = case["elem"]
+    if case.get("verts") is not None:
+        X, et, dim = place_nodes(el, case["verts"])
+        n = len(X)
+        X2 = np.vstack([X, X + np.array([5.0, 1.0, 0.5 if dim == 3 else 0.0])])
+        base = Mesh({et: F.Create(et, np.vstack([np.arange(n), np.arange(n) + n]), X2)})
+    else:
+        base, dim = build_mesh(case)
+    for mo in case.get("motions", []):
+        apply_motion(base, mo, np.zeros((1, 3)))
+    X0 = np.asarray(base.coord).copy()
+    Lb = float(np.abs(X0).max())
+    mt = MatrixType.mass
+    tol = TOL_ITER if case["iterative"] else TOL
+    fc = case["field"]
+    inter, nodes, edges = query_pool(base, rng, 8)
+    pools = {"interior": inter, "node": nodes, "edge": edges}
+
+    def observe(m, s):
+        ob = {"measure": (measure_of(m, dim), dim), "center": (np.asarray(m.center, float), 1)}
+        N = np.zeros(3); flux = 0.0; unit = 0.0
+        for g in m.Get_list_groupElem(dim - 1) if (dim == 3 or m.inDim == 2) else []:
+            nrm = np.asarray(g.Get_normals_e_pg(mt))
+            unit = max(unit, float(np.abs(np.linalg.norm(nrm, axis=2) - 1).max()))
+            wJ = np.asarray(g.Get_weightedJacobian_e_pg(mt))
+            xg = np.asarray(g.Get_GaussCoordinates_e_pg(mt))
+            N += np.einsum("epd,ep->d", nrm, wJ)
+            flux += float(np.einsum("epd,epd,ep->", nrm, xg, wJ))
+        if dim == 2:
+            for g in main_groups(m):
+                nrm = np.asarray(g.Get_normals_e_pg(mt))
+                unit = max(unit, float(np.abs(np.linalg.norm(nrm, axis=2) - 1).max()))
+        ob["integrated-normal"] = (N, dim - 1)
+        ob["flux"] = (flux, dim)
+        ob["unit"] = unit
+        vals = {}
+        f = lambda P: poly_field(fc)(np.asarray(P, float) / s)      # the field in the scaled unit of length
+        for pname, pts in pools.items():
+            with warnings.catch_warnings():
+                warnings.simplefilter("ignore")
+                u = f(m.coord)
+                b = np.asarray(m.Evaluate_dofsValues_at_coordinates(pts * s, u)).ravel()
+                sg = np.array([float(np.asarray(m.Evaluate_dofsValues_at_coordinates(pts[k:k + 1] * s, u)).ravel()[0]) for k in range(3)])
+            vals[pname] = (b, sg)
+        ob["values"] = vals
+        return ob
+    ob0 = observe(base, 1.0)
+    fscale = max(float(np.max(np.abs(poly_field(fc)(X0)))), 1e-300)
+    for s in case["scales"]:
+        cls = "small" if s < 1 else "large"
+        for how in ("fresh", "setter"):
+            if how == "fresh":
+                m = explicit_copy(base, X0 * s)
+            else:
+                import copy
+                m = copy.deepcopy(base)
+                m.coord = X0 * s
+            try:
+                ob = observe(m, s)
+            except Exception as ex:
+                kind, where = classify_exception(ex)
+                res(out, i, "scaled:raises:%s:%s" % (cls, el), "scaled:%s:%g:%s" % (el, s, how), False,
+                    "%s, lengths x %g (%s): raises %s: %s (at %s)" % (el, s, how, type(ex).__name__, str(ex)[:120], where))
+                if kind != "impl":
+                    out[-1]["harness_error"] = True
+                continue
+            for name in ("measure", "center", "integrated-normal", "flux"):
+                v0, pw = ob0[name]
+                v = ob[name][0]
+                ref = np.asarray(v0, float) * s ** pw
+                nat = (Lb * s) ** pw if name != "measure" else abs(float(ob0["measure"][0])) * s ** pw     # natural magnitude of the quantity
+                if name in ("integrated-normal", "flux"):
+                    nat = abs(float(ob0["measure"][0])) / Lb * (Lb * s) ** pw / Lb ** (pw - (dim - 1)) if False else (Lb * s) ** pw
+                d = float(np.max(np.abs(np.asarray(v, float) - ref))) / nat
+                res(out, i, "scaled:%s:%s:%s" % (name, cls, el), "scaled:%s:%s:%g:%s" % (el, name, s, how), d <= 1e-9,
+                    "%s, lengths x %g (%s): %s = %s, unit-scale value x s^%d = %s (relative difference %.2e)" % (
+                        el, s, how, name, np.round(np.asarray(v, float) / s ** pw, 12).tolist(), pw, np.round(np.asarray(v0, float), 12).tolist(), d), d, 0)
+            res(out, i, "scaled:unit-normals:%s:%s" % (cls, el), "scaled:%s:unit:%g:%s" % (el, s, how), ob["unit"] <= 1e-12,
+                "%s, lengths x %g (%s): max over all Gauss points of | |n| - 1 | = %.3e for the normals of Get_normals_e_pg" % (el, s, how, ob["unit"]), ob["unit"], 0)
+            for pname in pools:
+                b0, s0 = ob0["values"][pname]
+                b, sg = ob["values"][pname]
+                d = max(float(np.max(np.abs(b - b0))), float(np.max(np.abs(sg - s0)))) / fscale
+                k = int(np.argmax(np.abs(b - b0)))
+                res(out, i, ("scaled:locate:%s:iterative-inverse-map" % cls) if case["iterative"] else "scaled:locate:%s:affine:%s" % (cls, el), "scaled:%s:loc:%s:%g:%s" % (el, pname, s, how), d <= 10 * tol,
+                    "%s, lengths x %g (%s), %s points (batch of %d and 3 single queries), field f(x/s): max difference to the unit-scale answers %.3e (relative to max|f|) e.g. at %s: %.12g vs %.12g" % (
+                        el, s, how, pname, len(b), d, (pools[pname][k] * s).tolist(), b[k], b0[k]), d, 0)
+
+
+CASES = {"scaled": case_scaled, "renumber": case_renumber, "order": case_order, "sequence": case_sequence, "purity": case_purity, "deformed": case_deformed, "faces": case_faces, "geom": case_geom, "locate_gmsh": case_locate_gmsh, "locate_single": case_locate_single, "outside": case_outside}
 
 
 def classify_exception(ex):
